@@ -2,9 +2,9 @@
 
 # model .vo files the extraction depends on (relative to coq/)
 MODEL_VO = ['gen/Consts.vo', 'gen/CrcTables.vo', 'model/Bytes.vo', 'model/Codec.vo', 'model/Order.vo', 'model/Crc.vo',
-            'model/Block.vo', 'model/Writer.vo', 'model/WriteLoop.vo', 'spec/Leb128.vo', 'spec/Parse.vo']
+            'model/Block.vo', 'model/Writer.vo', 'model/WriteLoop.vo', 'spec/Leb128.vo', 'spec/Parse.vo', 'model/Reader.vo']
 # OCaml modules of the driver, in link order
-OCAML_MODULES = ['common', 'gen', 'c16', 'wr', 'c20', 'main']
+OCAML_MODULES = ['common', 'gen', 'enc', 'c16', 'wr', 'c20', 'rd', 'c19', 'main']
 C_VARIANTS_SETUP = ('all',)
 EXTRA_BUILDS = []
 COQ_TIMEOUT = 3000
@@ -49,6 +49,47 @@ PROPS = {
             '"number of data blocks / bytes" in T10a are those of the frames the writer model emits; that an independent decoder finds the same frames is checked on every implementation file by the extracted decoder (spec/Parse.v)',
         ],
         'explanation': 'T10a: trailer fields = counts of ACCEPTED entries, number/size of data frames, index offset/size, configured block size and algorithm, for every configuration, initial offset and add sequence; T10b/c: trailer round trip and agreement of the scraped field orders. Correspondence: accessors and mtbl_info output vs the independent decoder\'s view of the real file.',
+    },
+    'C09': {
+        'engines': [{'name': 'wr', 'timeout_quick': 600, 'timeout_thorough': 7200}],
+        'trusted_base': [WORLD_COMPRESS, 'decompression oracle for the independent decoder: the implementation\'s mtbl_decompress'],
+        'assumptions': ['block_restart_interval >= 1; compression never fails',
+                        'PARTIAL: T09b_layout_partial + T09c proved; block-internal clauses, index entries and size policy are decided on every implementation file by the extracted decoder/validator (spec/Parse.v), not yet by a theorem about the model writer (C09_statement is stated, proved only on a computed instance)'],
+        'explanation': 'Layout theorem (frames contiguous from the initial offset, varint length + CRC32C of stored bytes, index frame, 512-byte trailer ending in the magic) and separator theorem; every file written by the real writer is decoded and validated clause by clause by the extracted independent decoder and compared byte for byte with the model writer.',
+    },
+    'C01': {
+        'engines': [{'name': 'rd', 'timeout_quick': 900, 'timeout_thorough': 7200}, {'name': 'wr', 'timeout_quick': 600, 'timeout_thorough': 7200}],
+        'trusted_base': [WORLD_COMPRESS, 'decompression oracle: mtbl_decompress'],
+        'assumptions': ['PARTIAL: C01_statement is stated in full; proved are the writer layout (T09b_layout_partial) and the block-iterator walk (T01_block_walk_partial); the statement itself is checked by vm_compute on a multi-block instance (T01_example) and by engine rd/wr on every generated table and configuration',
+                        'madvise has no semantic content in the model; pooled writers are exercised by engine wr (byte-identical files)'],
+        'explanation': 'Round trip = writer emits a well-formed file (C09) o reader reads every well-formed file (C11). Implementation, model and the entries added are compared on writer-made tables over the configuration space; mtbl_dump -x and its -k/-v/-K/-V filters are compared with the specification.',
+    },
+    'C02': {
+        'engines': [{'name': 'rd', 'timeout_quick': 900, 'timeout_thorough': 7200}],
+        'trusted_base': ['decompression oracle: mtbl_decompress'],
+        'assumptions': ['PARTIAL: block-level search (T02_block_search_partial = T03a) and the bound tests (T02_bounds) are proved; the index-level step of C02_statement is validated by engine rd'],
+        'explanation': 'get / get_prefix / get_range on implementation, model and filter specification for every stored key, neighbours, proper prefixes, one-byte extensions, every index separator and its neighbours, empty key/prefix, reversed ranges.',
+    },
+    'C03': {
+        'engines': [{'name': 'rd', 'timeout_quick': 900, 'timeout_thorough': 7200}],
+        'trusted_base': ['decompression oracle: mtbl_decompress'],
+        'assumptions': ['T03a/T03b are about the block iterator on abstract well-formed blocks (entries as decoded); the reader-level lifting (index hand-over, block_offset, first/valid flags) is validated step by step by engine rd against the sorted-list cursor',
+                        'buffer stability and non-interference between iterators of one reader are validated only (returned pointers re-read before the next call; several iterators interleaved)'],
+        'explanation': 'T03a: block_iter_seek (gallop from the current restart index + binary search + continue-from-current shortcut + unbounded linear scan) reaches the first entry >= target from EVERY reachable iterator state of EVERY well-formed block; T03b: seek_to_first/next. Histories on the four iterator kinds, exhaustive (position,target) pairs on small tables.',
+    },
+    'C11': {
+        'engines': [{'name': 'rd', 'timeout_quick': 900, 'timeout_thorough': 7200}],
+        'trusted_base': ['decompression oracle: mtbl_decompress', 'independent encoder ocaml/enc.ml (generator; its v2 output is judged by the extracted decoder before use)'],
+        'assumptions': ['PARTIAL: T11_any_layout_partial (block iterator correct for any legal restart positions / sharing); decoding bytes into blocks and the index hand-over of C11_statement are validated by engine rd on encoder-made v1/v2 files',
+                        '64-bit restart arrays (blocks above 4 GiB) are modelled (block_init arithmetic) but not executed'],
+        'explanation': 'Files from an independent encoder with random legal layouts (format v1 and v2, arbitrary block boundaries, restart positions, non-maximal sharing, shortened separators, compression) are read by implementation and model: iteration, lookups, seek histories.',
+    },
+    'C19': {
+        'engines': [{'name': 'c19', 'timeout_quick': 600, 'timeout_thorough': 7200}],
+        'trusted_base': ['mmap shim: reader.c compiled with -Dmmap=vp_mmap -Dmunmap=vp_munmap (ocaml/stubs.c): a private copy of the file flush against PROT_NONE guard pages'],
+        'assumptions': ['file content is a byte string (every element < 256)',
+                        'the read extents recorded by the model are those of mtbl_reader_init_fd, metadata_read, the varint/fixed decoders, the optional index CRC and block_init; that the C code makes no other read is what the guard-page runs validate'],
+        'explanation': 'T19a: for every byte string and either verify_checksums setting, every read extent of the model of mtbl_reader_init_fd lies inside the file and the outcome is NULL / reader / assertion. Real code: outcome class under guard pages on trailer/index-header mutations, truncations, random bytes.',
     },
     'C20': {
         'engines': [{'name': 'c20', 'timeout_quick': 600, 'timeout_thorough': 7200}],
